@@ -367,17 +367,17 @@ func (b *Builder) Align(t types.Type) uintptr {
 		case types.Int32, types.Uint32:
 			return 4
 		case types.Int64, types.Uint64:
-			return 8
+			return b.align64()
 		case types.Int, types.Uint, types.Uintptr, types.UnsafePointer:
 			return b.PtrSize
 		case types.Float32:
 			return 4
 		case types.Float64:
-			return 8
+			return b.alignF64()
 		case types.Complex64:
 			return 4
 		case types.Complex128:
-			return 8
+			return b.alignF64()
 		case types.String:
 			return b.PtrSize
 		}
@@ -409,6 +409,20 @@ func (b *Builder) Align(t types.Type) uintptr {
 		return b.Align(t.Underlying())
 	}
 	panic("unsupported align: " + t.String())
+}
+
+func (b *Builder) align64() uintptr {
+	if b.Align64 != 0 {
+		return b.Align64
+	}
+	return 8
+}
+
+func (b *Builder) alignF64() uintptr {
+	if b.AlignF64 != 0 {
+		return b.AlignF64
+	}
+	return 8
 }
 
 func (b *Builder) FieldAlign(t types.Type) uintptr {
